@@ -27,6 +27,7 @@ use rustc_middle::mir::{
     StatementKind, TerminatorKind, UnwindAction,
 };
 use rustc_middle::ty::print::with_no_trimmed_paths;
+use rustc_middle::ty::TypeVisitableExt;
 use rustc_middle::ty::{self, EarlyBinder, GenericArgKind, Instance, InstanceKind, Ty, TyCtxt, TypingEnv};
 use rustc_span::Span;
 
@@ -1082,13 +1083,14 @@ impl<'tcx> Cx<'tcx> {
                 };
                 for (bb, data) in body.basic_blocks.iter_enumerated() {
                     // constants of FnDef type anywhere (calls and fn-item references)
-                    let mut fn_consts: Vec<(Ty<'tcx>, bool, Span)> = Vec::new();
+                    let mut fn_consts: Vec<(Ty<'tcx>, bool, Span, bool)> = Vec::new();
                     let mut closures: Vec<(DefId, ty::GenericArgsRef<'tcx>, Span)> = Vec::new();
-                    let visit_op = |op: &Operand<'tcx>, is_callee: bool, sp: Span, v: &mut Vec<(Ty<'tcx>, bool, Span)>| {
+                    let mut unsizes: Vec<(Ty<'tcx>, Ty<'tcx>, Span)> = Vec::new();
+                    let visit_op = |op: &Operand<'tcx>, is_callee: bool, sp: Span, v: &mut Vec<(Ty<'tcx>, bool, Span, bool)>| {
                         if let Operand::Constant(c) = op {
                             let t = c.const_.ty();
                             if let ty::FnDef(..) = t.kind() {
-                                v.push((t, is_callee, sp));
+                                v.push((t, is_callee, sp, false));
                             }
                         }
                     };
@@ -1099,7 +1101,30 @@ impl<'tcx> Cx<'tcx> {
                                 Rvalue::Use(op, _) | Rvalue::Repeat(op, _) | Rvalue::UnaryOp(_, op) => {
                                     visit_op(op, false, sp, &mut fn_consts)
                                 }
-                                Rvalue::Cast(_, op, _) => visit_op(op, false, sp, &mut fn_consts),
+                                Rvalue::Cast(kind, op, target) => {
+                                    if matches!(
+                                        kind,
+                                        CastKind::PointerCoercion(ty::adjustment::PointerCoercion::Unsize, _)
+                                    ) {
+                                        unsizes.push((op.ty(&body.local_decls, tcx), *target, sp));
+                                    }
+                                    if matches!(
+                                        kind,
+                                        CastKind::PointerCoercion(
+                                            ty::adjustment::PointerCoercion::ReifyFnPointer(..),
+                                            _
+                                        )
+                                    ) {
+                                        // address taken and stored: not a native call from here
+                                        let n0 = fn_consts.len();
+                                        visit_op(op, false, sp, &mut fn_consts);
+                                        for e in fn_consts[n0..].iter_mut() {
+                                            e.3 = true;
+                                        }
+                                    } else {
+                                        visit_op(op, false, sp, &mut fn_consts)
+                                    }
+                                }
                                 Rvalue::BinaryOp(_, ab) => {
                                     visit_op(&ab.0, false, sp, &mut fn_consts);
                                     visit_op(&ab.1, false, sp, &mut fn_consts);
@@ -1135,7 +1160,7 @@ impl<'tcx> Cx<'tcx> {
                         }
                         _ => {}
                     }
-                    for (t, is_callee, sp) in fn_consts {
+                    for (t, is_callee, sp, reified) in fn_consts {
                         let t = inst.instantiate_mir_and_normalize_erasing_regions(
                             tcx,
                             tenv,
@@ -1150,7 +1175,7 @@ impl<'tcx> Cx<'tcx> {
                                     add_edge(
                                         self,
                                         &mut edges,
-                                        if is_callee { "call" } else { "ref" },
+                                        if is_callee { "call" } else if reified { "reify" } else { "ref" },
                                         callee,
                                         bb.as_usize(),
                                         sp,
@@ -1166,6 +1191,29 @@ impl<'tcx> Cx<'tcx> {
                                         ("bb", ji(bb.as_usize())),
                                         ("sp", ji(self.span(sp))),
                                     ]));
+                                }
+                            }
+                        }
+                    }
+                    for (src, dst, sp) in unsizes {
+                        let src = inst.instantiate_mir_and_normalize_erasing_regions(tcx, tenv, EarlyBinder::bind(src));
+                        let dst = inst.instantiate_mir_and_normalize_erasing_regions(tcx, tenv, EarlyBinder::bind(dst));
+                        let mut pairs = Vec::new();
+                        unsize_pairs(src, dst, &mut pairs, 0);
+                        for (impl_ty, trait_ty) in pairs {
+                            if let ty::Dynamic(preds, ..) = trait_ty.kind() {
+                                if let Some(principal) = preds.principal() {
+                                    if impl_ty.has_escaping_bound_vars() {
+                                        continue;
+                                    }
+                                    let trait_ref = tcx.instantiate_bound_regions_with_erased(
+                                        principal.with_self_ty(tcx, impl_ty),
+                                    );
+                                    for entry in tcx.vtable_entries(trait_ref).iter() {
+                                        if let ty::VtblEntry::Method(m) = entry {
+                                            add_edge(self, &mut edges, "vtable", *m, bb.as_usize(), sp, &mut queue, &mut seen);
+                                        }
+                                    }
                                 }
                             }
                         }
@@ -1206,6 +1254,25 @@ impl<'tcx> Cx<'tcx> {
 }
 
 // ------------------------------------------------------------------------------------------------
+
+fn unsize_pairs<'tcx>(src: Ty<'tcx>, dst: Ty<'tcx>, out: &mut Vec<(Ty<'tcx>, Ty<'tcx>)>, depth: usize) {
+    if depth > 8 || src == dst {
+        return;
+    }
+    match (src.kind(), dst.kind()) {
+        (ty::Dynamic(..), _) => {}
+        (_, ty::Dynamic(..)) => out.push((src, dst)),
+        (ty::Ref(_, a, _), ty::Ref(_, b, _))
+        | (ty::RawPtr(a, _), ty::RawPtr(b, _))
+        | (ty::Ref(_, a, _), ty::RawPtr(b, _)) => unsize_pairs(*a, *b, out, depth + 1),
+        (ty::Adt(d1, a1), ty::Adt(d2, a2)) if d1 == d2 => {
+            for (x, y) in a1.types().zip(a2.types()) {
+                unsize_pairs(x, y, out, depth + 1);
+            }
+        }
+        _ => {}
+    }
+}
 
 struct FactsCallbacks {
     out_dir: String,
